@@ -45,7 +45,8 @@ def num_boundary():
             "180.00000000000000001", "1.81E2", "181", "1e3", "1e400", "1E400", ".5", "5.", "0.5", "1e", "e1", "1e+",
             "1e+2", "1e-2", "1.e1", ".e1", "1_0", "1__0", "_1", "1_", "1_0.5", "1.5_5", "1e1_0", "٣", "1٣",
             "nan", "NaN", "NAN", "inf", "Inf", "INF", "infinity", "Infinity", "in", "na", "nane", "infinit",
-            "0x10", "1,5", "1 0", "1e 2", "abc", "1.2.3", "--1", "+-1", "1-", "1+1", "１"]
+            "0x10", "1,5", "1 0", "1e 2", "abc", "1.2.3", "--1", "+-1", "1-", "1+1", "１",
+            "\u00b2", "\u2460", "12\u00b3", "\u00b9", "\u0663\u00b2", "\u2155", "\u5341", "9" * 5000, "1" + "0" * 400]
     out = []
     for sign in ("", "+", "-"):
         for m in mags:
